@@ -72,6 +72,8 @@ def strategy_(draw, thorough):
     nf["cols"] = cols
     return {"base": fr0, "opts": opts, "partition_on": pn, "new": nf,
             "pre_remove": draw(st.sampled_from([None, None, 0, 1])),
+            # an earlier insert that re-ordered the row groups without renaming the files (write_row_groups with a sort key)
+            "pre_sorted": draw(st.sampled_from([False, False, True])),
             "rgo": draw(st.one_of(st.none(), st.integers(1, max(1, nf["n"])))),
             "via": draw(st.sampled_from(["write", "write", "write_row_groups"])), "k": None,
             "flavour": draw(st.sampled_from(["callables", "fsspec"]))}
@@ -142,6 +144,19 @@ def run_case(case):
                 if len(pf_.row_groups) >= 2:
                     pf_.remove_row_groups([pf_.row_groups[case["pre_remove"] % (len(pf_.row_groups) - 1)]])
                     labels.append("gap_in_part_numbers")
+            if case.get("pre_sorted"):
+                import re
+
+                def newest_first(rg):
+                    m = re.search(r"part\.(\d+)\.parquet$", rg.columns[0].file_path or "")
+                    return -int(m.group(1)) if m else 0
+                pf_ = fastparquet.ParquetFile(basep)
+                d_ = df1
+                if pf_._get_index():
+                    from fastparquet.util import reset_row_idx
+                    d_ = reset_row_idx(df1)
+                pf_.write_row_groups(d_, row_group_offsets=case["rgo"], sort_key=newest_first)
+                labels.append("row_groups_not_in_part_number_order")
             old = _content(basep)
         except Exception as e:
             return discard("base_write_or_read_raised", labels)
@@ -199,9 +214,12 @@ def run_case(case):
             plan.append((k, False))
             if events[k - 1][0] == "write" and (case.get("mode") in (None, "partial")):
                 plan.append((k, True))
+            if events[k - 1][0] == "close" and (case.get("mode") in (None, "lost")):
+                # the close fails and what was written since the open is lost (upload on close, failed final flush)
+                plan.append((k, "lost"))
         if case.get("mode") == "raise":
             plan = [(k, p) for k, p in plan if not p]
-        elif case.get("mode") == "partial" and case.get("k") is not None:
+        elif case.get("mode") in ("partial", "lost") and case.get("k") is not None:
             plan = [(k, p) for k, p in plan if p]
         sub_nt = []
         n_exec = 0
@@ -210,7 +228,7 @@ def run_case(case):
             if os.path.exists(run):
                 shutil.rmtree(run)
             shutil.copytree(basep, run)
-            fsk = FaultFS(fail_at=k, partial=partial)
+            fsk = FaultFS(fail_at=k, partial=partial is True, lose_on_close=partial == "lost")
             raised = None
             try:
                 _append(run, df1, case, fsk)
@@ -219,7 +237,7 @@ def run_case(case):
             finally:
                 fsk.close_all()
             n_exec += 1
-            mode = "partial" if partial else "raise"
+            mode = "lost" if partial == "lost" else "partial" if partial else "raise"
             kind = events[k - 1][0]
             tag = "k=%d/%d %s %s" % (k, kmeta - 1, kind, mode)
             if len(fsk.events) < k:
@@ -297,6 +315,10 @@ def shrink_moves(case):
     if case["via"] != "write":
         c = copy.deepcopy(case)
         c["via"] = "write"
+        yield c
+    if case.get("pre_sorted"):
+        c = copy.deepcopy(case)
+        c["pre_sorted"] = False
         yield c
     if case.get("pre_remove") is not None:
         c = copy.deepcopy(case)
